@@ -68,9 +68,9 @@ Definition ty_of (v : value) : ty :=
 Definition s_true : bytes := [116;114;117;101].
 Definition s_false : bytes := [102;97;108;115;101].
 
-(* fmt.Sprint(float64) for "nice" values: |x| < 2^53 and x * 2^k integral for
-   some k <= 20 with at most 15 significant digits; None otherwise (the
-   harness does not generate other floats in printed position) *)
+(* fmt.Sprint(float64) for nice values: 10^-4 <= |x| < 10^6 (no exponent
+   notation) and x * 2^k integral for some k with at most 15 significant
+   digits; None otherwise = outside the modelled fragment (OUnsup) *)
 Definition pow2 (k : nat) : Z := Z.pow 2 (Z.of_nat k).
 Fixpoint frac_digits (fuel : nat) (num den : Z) : bytes :=   (* digits of num/den < 1, den = 2^k *)
   match fuel with
@@ -86,14 +86,15 @@ Definition fmt_float (x : float) : option bytes :=
       let mz := Zpos m in
       if (0 <=? e)%Z then
         let v := (mz * 2 ^ e)%Z in
-        if (v <? 9007199254740992)%Z then Some ((if s then [45] else []) ++ dec_of_Z v) else None
+        (* from 10^6 on Go switches to exponent notation: outside the modelled fragment *)
+        if (v <? 1000000)%Z then Some ((if s then [45] else []) ++ dec_of_Z v) else None
       else
         let k := Z.to_nat (- e) in
         let den := pow2 k in
         let ip := (mz / den)%Z in
         let fr := (mz mod den)%Z in
         let fd := frac_digits 60 fr den in
-        if (Nat.leb (length (dec_of_Z ip) + length fd) 15) && (ip <? 1000000000000)%Z && negb ((ip =? 0)%Z && Nat.ltb 4 (length (span (N.eqb 48) fd)))
+        if (Nat.leb (length (dec_of_Z ip) + length fd) 15) && (ip <? 1000000)%Z && negb ((ip =? 0)%Z && Nat.ltb 4 (length (span (N.eqb 48) fd)))
         then Some ((if s then [45] else []) ++ dec_of_Z ip ++ (match fd with [] => [] | _ => 46 :: fd end))
         else None
   | _ => None
